@@ -90,6 +90,8 @@ HISTORY = {
     "C05-r8-2": "round 8. needs complex coefficients (the agent notes the quantifier names integers and floats only); C05 now draws complex operands in one case out of seven and catches it",
     "C10-r8-1": "round 8. first run: missed by C10 and C11; matmul now also gets a plain numeric array / list as the *left* operand",
     "C10-r8-2": "round 8. first run: missed by C10 and C11; det now also gets matrices stacked along two and three leading axes",
+    "C01-r8-1": "round 8. first run: caught by C12 and C09, missed by C01; C01's list operands now include nested lists whose first row holds ints and later rows non-integral floats",
+    "C01-r8-2": "round 8. first run: missed by C01, C12 and C09; numeric array operands now also come in non-native byte order (layout 'swapped', in every check that draws constant operands)",
     "C06-2": "first run: caught by C06, missed by C15; C15's derivative entry now differentiates with respect to several variables",
 }
 REJECTED = [
